@@ -428,6 +428,39 @@ theorem csv_table_roundtrip_tab (cols : List Bytes) (hcols : ∀ n ∈ cols, Col
   rw [← AslProofs.Csv.readTableT_nil]
   exact AslProofs.Csv.table_roundtrip_tab cols hcols h2 rows hrows
 
+/-- **csv_array_rows_any_separator.**  For every separator and decimal symbol, every non-empty list of column names and
+    every table with one cell per column (no cell being the row-flushing `"\n"`), handing each row to `<<` as an
+    array `Var` writes byte for byte the file that `<<` of every single cell writes — so the three table theorems for
+    `,` `;` tab hold for array rows as well (that the caller's array is copied, not shared: K only, as before). -/
+theorem csv_array_rows_any_separator (sep dec : UInt8) (cols : List Bytes) (hne : cols ≠ []) (rows : List (List Cell))
+    (hrows : ∀ r ∈ rows, r.length = cols.length ∧ ∀ c ∈ r, c ≠ Cell.str [10]) :
+    Csv.writeItemsG sep dec cols (rows.map .arr) = Csv.writeItemsG sep dec cols (rows.flatten.map .cell) := by
+  have hpos : 0 < cols.length := List.length_pos_iff.mpr hne
+  apply AslProofs.Csv.writeItemsG_arrays
+  intro r hr
+  obtain ⟨h1, h2⟩ := hrows r hr
+  refine ⟨h1, ?_, fun c hc => by simpa using h2 c hc⟩
+  intro e; subst e; simp at h1; omega
+
+/-- a table for `csv_table_roundtrip_typed`: columns `a b c`, separator `;`, decimal comma, types `s n _`, one row
+    `"007" ; 1.5 ; "x"` — and the two rows of it meet `csv_array_rows_any_separator` -/
+example : (∀ r ∈ [[Cell.str [48, 48, 55], .num [49, 46, 53], .str [120]]],
+      r.length = [[97], [98], [99]].length ∧ (∀ x ∈ r, CellOK 59 (Csv.localize 44 x)) ∧
+      AslProofs.Csv.FitsAll (AslProofs.Csv.sniffDec 59) [.str, .num, .skip] r ∧
+      (∀ c, r.head? = some c → (cellText (Csv.localize 44 c)).head? ≠ some 0xEF)) ∧
+    (∀ c ∈ [Cell.str [48, 48, 55], .num [49, 46, 53], .str [120]], c ≠ Cell.str [10]) := by
+  refine ⟨?_, by decide⟩
+  intro r hr
+  simp only [List.mem_cons, List.not_mem_nil, or_false] at hr
+  subst hr
+  refine ⟨rfl, ?_, ⟨trivial, Or.inl (by decide), trivial, trivial⟩, ?_⟩
+  · intro x hx
+    simp only [List.mem_cons, List.not_mem_nil, or_false] at hx
+    rcases hx with e | e | e <;> subst e <;> simp [Csv.localize, CellOK]
+  · intro c hc
+    simp at hc; subst hc
+    simp [Csv.localize, cellText]
+
 /-- **csv_number_exact_Q.**  Every number text `[-]digits[.digits][(e|E)[+|-]digits]` with at most 18 mantissa digits
     and at most 9 exponent digits (in particular every `%.15g` output) is recognised as a number by `myisnumber`;
     on it the code's `long long y1` stays below 2^63 and its `int` exponent within ±2^31, so the model's unbounded
